@@ -6,6 +6,10 @@ R3 = {"name": "hmm_3st_replay", "harness": H, "entry": "r_hmm_3st", "native_repl
 GROUPS = [
     dict(name="hmm_vit_eval_3st_lr", harness=H, enforce="hmm_vit_eval_3st_lr", min_postconditions=12, replay=R3, allow_no_body=NB),
     dict(name="hmm_vit_eval_3st_lr_mpx", harness=H, enforce="hmm_vit_eval_3st_lr_mpx", min_postconditions=12, allow_no_body=NB),
+    dict(name="history_entry_add", harness="harness/C02_history.c", entry="r_history_entry_add", allow_no_body=["*"], unwind=6, extra_sources=["@src/glist.c"],
+         replay={"name": "history_entry_add_replay", "harness": "harness/C02_history.c", "entry": "r_history_entry_add", "native_replay": True, "canary": False, "allow_no_body": ["*"], "unwind": 6,
+                 "native_sources": "ALL", "native_exclude": ["fsg_history.c"]},
+         bounded="one (state, left context) list of <= 2 entries with symbolic scores and 128-bit right-context sets, one addition, witness bit"),
 ]
 
 ASSUMPTIONS = [
@@ -14,8 +18,8 @@ ASSUMPTIONS = [
     "a skip arc of the 3-state code exists iff its stored cost is < 255 (TMAT_WORST_SCORE)",
 ]
 HAND_LEMMAS = ["global optimality over all alignments is the standard Viterbi induction over frames from the local max-plus step; not machine checked"]
-NOT_COVERED = ["global optimum over all alignments", "fsg_search transitions (pnode_trans/word_trans/null_prop) and fsg_history_entry_add domination rule (seeded change C02_A is not detected)", "lextree / triphone construction", "5-state and any-topology evaluators"]
+NOT_COVERED = ["global optimum over all alignments", "fsg_search transitions (pnode_trans/word_trans/null_prop)", "lextree / triphone construction", "5-state and any-topology evaluators"]
 CLAIM = dict(
-    text="Each Viterbi step of the 3-state HMM evaluators (hmm_vit_eval_3st_lr and its multiplex variant) is proved, for ALL int32 score vectors satisfying the HMM invariant, all senone scores and all transition bytes, to be the exact clamped max-plus step over the legal arcs: every state's new score is the maximum of its predecessors' score minus senone score minus arc cost, each weight used once, back-pointers follow an arg-max predecessor, the best score is the maximum, nothing wraps. Global optimality of the search is NOT decided (local steps only).",
+    text="Each Viterbi step of the 3-state HMM evaluators (hmm_vit_eval_3st_lr and its multiplex variant) is proved, for ALL int32 score vectors satisfying the HMM invariant, all senone scores and all transition bytes, to be the exact clamped max-plus step over the legal arcs: every state's new score is the maximum of its predecessors' score minus senone score minus arc cost, each weight used once, back-pointers follow an arg-max predecessor, the best score is the maximum, nothing wraps. The history pruning rule (fsg_history_entry_add) is checked on lists of <= 2 entries with symbolic 128-bit right-context sets: for every right context the best score on offer is kept (bounded). Global optimality of the search is NOT decided (local steps only).",
     note="local optimality steps only; preconditions WF_HMM; search transitions, history pruning, lextree and the global maximum are not covered; trusted: CBMC 6.11",
     technique="CBMC function contract enforced with goto-instrument --dfcc, loop-free code over the full input domain; counterexamples replayed natively through a constructive harness")
